@@ -754,7 +754,28 @@ class Interp:
                 last = v
         return last
 
+    memo_skip = frozenset()
+
+    def run_fn_body(self, ast, env):
+        """the body of a crate function (the unit's own or an inlined helper): statements that belong to a memo cache are left out (the run
+        computes the MISS path, see vlib/memo.py); the cache's soundness findings are collected for the unit's obligations"""
+        mm = ast.get("__memo__") if getattr(self, "memo_enabled", True) else None
+        if not mm:
+            return self.block(ast["body"], env)
+        saved = self.memo_skip
+        self.memo_skip = mm["skip"]
+        for f in mm["findings"]:
+            self.ctx.memo_findings = getattr(self.ctx, "memo_findings", []) + [dict(f, fn=ast["sig"]["name"])]
+            _MEMO_FOUND.append(dict(f, fn=ast["sig"]["name"]))
+        self.calls.append("MEMO-CACHE-REMOVED:" + ast["sig"]["name"])
+        try:
+            return self.block(ast["body"], env)
+        finally:
+            self.memo_skip = saved
+
     def stmt(self, st, env, is_last):
+        if self.memo_skip and tuple(st.get("span") or ()) in self.memo_skip:
+            return SKIP
         if not self.trace_only:
             return self.stmt_inner(st, env, is_last)
         snap_log, snap_exits = len(self.ctx.log), len(self.ctx.exits)
@@ -1706,10 +1727,10 @@ class Interp:
             v = self.try_inline(segs[-1], args_i)
             if v is not NotImplemented:
                 return v
-        if len(segs) == 2 and getattr(self, "helper_files", None) and getattr(self, "file_root", None) and self.inline_depth < 3:
-            # `Type::f(..)` of a crate type without a contract: its real body, if it can be found in the unit's helper files
+        if len(segs) == 2 and getattr(self, "file_root", None) and self.inline_depth < 3:
+            # `Type::f(..)` of a crate type without a contract: its real body, if it can be found in the unit's own file / helper files
             root = self.file_root[0]
-            for rel in [self.file_root[1]] + list(self.helper_files):
+            for rel in [self.file_root[1]] + list(getattr(self, "helper_files", None) or []):
                 for pth in fn_paths(root, rel):
                     owner_ok = pth.startswith(f"<{segs[0]} as ") or pth.startswith(f"{segs[0]}::") or f"::{segs[0]}::" in pth or f"::<{segs[0]} as " in pth
                     if pth.endswith("::" + segs[1]) and owner_ok and not pth.startswith("test"):
@@ -1729,7 +1750,7 @@ class Interp:
                         self.file_root = (root, rel, pth.rsplit("::", 1)[0])
                         try:
                             try:
-                                return self.block(ast_["body"], env_)
+                                return self.run_fn_body(ast_, env_)
                             except Return as r_:
                                 return r_.v
                         finally:
@@ -1806,7 +1827,7 @@ class Interp:
         self.calls.append(f"INLINED-BODY:{name}")
         try:
             try:
-                return self.block(ast["body"], env)
+                return self.run_fn_body(ast, env)
             except Return as r:
                 return r.v
         finally:
@@ -1855,7 +1876,7 @@ class Interp:
         self.calls.append(f"INLINED-BODY:{tn}::{m}")
         try:
             try:
-                return self.block(ast["body"], env2)
+                return self.run_fn_body(ast, env2)
             except Return as r:
                 return r.v
         finally:
@@ -2690,8 +2711,101 @@ def dump_ast(root, rel, fn_path):
     kind, v = _AST_CACHE[key]
     if kind == "lost":
         raise AstLost(v)
-    import copy
+    if "__memo__" not in v:
+        v["__memo__"] = _memo_info(root, rel, fn_path, v)
     return v
+
+
+_FILE_INDEX = {}
+_FILE_MEMO = {}
+_MEMO_FOUND = []        # memo findings met during the current unit run (also on paths that later leave the fragment)
+
+
+def file_index(root, rel):
+    key = (root, rel)
+    if key not in _FILE_INDEX:
+        p = os.path.join(root, rel)
+        out = []
+        if os.path.exists(p):
+            r = subprocess.run([VFX, "index", p], capture_output=True, text=True)
+            if r.returncode == 0:
+                out = json.loads(r.stdout)
+        _FILE_INDEX[key] = out
+    return _FILE_INDEX[key]
+
+
+def _raw_ast(root, rel, fn_path):
+    key = (root, rel, fn_path)
+    if key not in _AST_CACHE:
+        try:
+            _AST_CACHE[key] = ("ok", _dump_ast(root, rel, fn_path))
+        except AstLost as e:
+            _AST_CACHE[key] = ("lost", str(e))
+    kind, v = _AST_CACHE[key]
+    return v if kind == "ok" else None
+
+
+def _owner_of(fn_path):
+    segs = [x for x in fn_path.split("::") if x != "alloc"]
+    return segs[-2] if len(segs) >= 2 and not segs[-2].startswith("<") else None
+
+
+def _file_memo_ctx(root, rel):
+    """(FileStores, accessor helper names) of one source file; files that never name an interior-mutability type are skipped outright"""
+    key = (root, rel)
+    if key in _FILE_MEMO:
+        return _FILE_MEMO[key]
+    from . import memo
+    res = None
+    try:
+        txt = open(os.path.join(root, rel)).read()
+    except OSError:
+        txt = ""
+    if any(t.strip(" <") in txt for t in memo.INTERIOR):
+        idx = file_index(root, rel)
+        fs = memo.FileStores(idx)
+        accessors = set()
+        for it in idx:
+            if it["kind"] != "fn" or it["path"].startswith("test") or "::tests::" in it["path"]:
+                continue
+            a = _raw_ast(root, rel, it["path"])
+            if a is None:
+                continue
+            owner = _owner_of(it["path"])
+            if memo.direct_store_use(a, fs, owner):
+                pl = memo.neutralise(a, fs, owner)
+                ret = (a["sig"].get("ret") or "").replace(" ", "")
+                returns_value = ret not in ("", "()", "bool") and not ret.startswith("Option<&")
+                if not (pl.lookups and pl.inserts and returns_value):
+                    accessors.add(it["path"].split("::")[-1])      # a pure accessor of the store (lookup / insert helper without a value of its own)
+        res = (fs, frozenset(accessors))
+    _FILE_MEMO[key] = res
+    return res
+
+
+def _memo_info(root, rel, fn_path, ast):
+    ctxm = _file_memo_ctx(root, rel)
+    if ctxm is None:
+        return None
+    from . import memo
+    fs, accessors = ctxm
+    owner = _owner_of(fn_path)
+    if fn_path.split("::")[-1] in accessors:
+        return None                   # an accessor is never inlined as program logic: its call sites are cache statements
+
+    def resolve(m):
+        for cand in ([f"{owner}::{m}", f"alloc::{owner}::{m}"] if owner else []) + [m]:
+            a = _raw_ast(root, rel, cand)
+            if a is not None:
+                return a
+        return None
+    try:
+        plan, findings = memo.analyse(ast, fs, owner, resolve, accessors)
+    except Exception as e:      # the analysis must never change a verdict by crashing
+        return None
+    if not plan.skip:
+        return None
+    return {"skip": frozenset(plan.skip), "findings": findings}
 
 
 def _dump_ast(root, rel, fn_path):
@@ -2763,7 +2877,39 @@ class Unit:
         self.replay = replay
 
 
+def _memo_obligations(unit):
+    """memo caches met during the unit's run (vlib/memo.py): the symbolic run is the MISS path; it is the function's meaning only if every
+    cache's key determines every input the miss path depends on"""
+    obs = []
+    seen_m = set()
+    for f in list(_MEMO_FOUND):
+        keyf = (f["fn"], f["store"])
+        if keyf in seen_m:
+            continue
+        seen_m.add(keyf)
+        missing = [*f["missing_params"], *["self." + x for x in f["missing_fields"]]]
+        obs.append({"id": f"{unit.name}.memo_cache[{f['fn']}:{f['store']}].key_covers_inputs", "unit": unit.name, "kind": "ring",
+                    "text": f"{f['fn']}: the early exit on a hit of the store `{f['store']}` is sound: every input the miss path depends on flows into the "
+                            f"lookup key (key inputs: {f['key_params'] + ['self.' + x for x in f['key_fields']]})",
+                    "status": "failed" if missing else "discharged", "backend": "ringcheck", "cex": None,
+                    "detail": (f"the cache key omits {missing}: a second call that differs from an earlier one only in {missing} hits the entry of the "
+                               f"earlier call and returns ITS answer (miss path uses params {f['used_params']}, fields {f['used_fields']})") if missing else None})
+    return obs
+
+
 def run_unit(root, unit, contracts, seed=0, perturb=None):
+    """see _run_unit; memo-cache findings are definite on their own: they are reported even when the symbolic run leaves the fragment"""
+    del _MEMO_FOUND[:]
+    try:
+        return _run_unit(root, unit, contracts, seed=seed, perturb=perturb)
+    except OutsideFragment:
+        bad = [o for o in _memo_obligations(unit) if o["status"] == "failed"]
+        if bad and not perturb:
+            return bad, []
+        raise
+
+
+def _run_unit(root, unit, contracts, seed=0, perturb=None):
     """Returns (obligations, callee-contract uses).  The real body is executed symbolically once per feasible
     combination of decisions at its symbolic branches (path splitting, at most MAX_PATHS paths); EVERY path must meet
     the contract."""
@@ -2786,6 +2932,7 @@ def run_unit(root, unit, contracts, seed=0, perturb=None):
         it1.file_root = (root, unit.file, unit.fn.rsplit("::", 1)[0] if "::" in unit.fn else None)
         it1.helper_files = list(getattr(unit, "helper_files", ()) or ())
         it1.track_allocs = bool(getattr(unit, "track_allocs", False))
+        it1.memo_enabled = bool(getattr(unit, "memo", True))       # False: the unit models the store explicitly in its own contract
         it1.decisions = list(decisions)
         env = ChildEnv(None)
         args1 = []
@@ -2808,7 +2955,7 @@ def run_unit(root, unit, contracts, seed=0, perturb=None):
             pass
         try:
             try:
-                res1 = it1.block(ast["body"], env)
+                res1 = it1.run_fn_body(ast, env)
                 if unit.closure:
                     raise AstLost(f"{unit.fn}: no `let {unit.closure} = |..|` closure found")
             except Return as r:
@@ -2960,6 +3107,7 @@ def run_unit(root, unit, contracts, seed=0, perturb=None):
             ob["recipe"] = {"kind": "scenario", "src": sc_["src"]}
             ob["cex"] = {"scenario": sc_["what"]}
         obs.append(ob)
+    obs += _memo_obligations(unit)
     return obs, calls
 
 
